@@ -522,6 +522,21 @@ def run(ck):
         else:
             cl += ["rxi " + c07.peer_asdu(n0 + 1).hex(), "step", "rxi " + c07.peer_asdu(99).hex() + " 3", "step", "step"]
         cs.append(("cdir_%d" % i, cl)); meta["cdir_%d" % i] = p
+    # directed, both roles: a quiet line for many t3 periods, every TESTFR act confirmed at once: a TESTFR act at every expiry, the
+    # connection stays open however many rounds there are (a counter of test frames that is never reset ends it after a few)
+    for i in range(6 if quick else 60):
+        p = params(rng, quick)
+        if p["t1"] < 2:
+            p["t1"] = 2
+        hdr = ["cfg k=%d w=%d t1=%d t2=%d t3=%d" % (p["k"], p["w"], p["t1"], p["t2"], p["t3"])]
+        cl = hdr + ["connect", "startdt", "step", "rx " + apci.STARTDT_CON.hex(), "step"]
+        sl = hdr + ["start", "connect c0 10.0.0.1:1000", "tick", "rx c0 " + apci.STARTDT_ACT.hex(), "tick"]
+        for _ in range(rng.range(5, 9)):
+            d = p["t3"] * 1000 + rng.choice([1, 2, 500])
+            cl += ["adv %d" % d, "step", "rx " + apci.TESTFR_CON.hex(), "step"]
+            sl += ["adv %d" % d, "tick", "rx c0 " + apci.TESTFR_CON.hex(), "tick"]
+        cs.append(("cidle_%d" % i, cl)); meta["cidle_%d" % i] = p
+        ss.append(("sidle_%d" % i, sl)); meta["sidle_%d" % i] = p
     rs = runner.run_batch(hsrv, ss, timeout=3600)
     rc = runner.run_batch(hcli, cs, timeout=3600)
     rm = runner.run_batch(m, ss, timeout=3600) if m else {}
